@@ -33,8 +33,8 @@ fn denied(name: &str) -> bool {
 }
 
 /// value pool; `@array` etc. are replaced by live handles of a prepared session
-const POOL: [&str; 27] = [
-    "9223372036854775807", "-9223372036854775808", "\n", "aé😀日", "NaN", "@selfarray", "@selfmap", "@outercycle", "j", "a=b", "", "a", "a b", "é😀", "-1", "0", "1", "2.5", "99999999999999999999", "@array", "@map", "@set", "@bytes", "@released", "-r", "a\nb", "--FLAG",
+const POOL: [&str; 28] = [
+    "9223372036854775807", "-9223372036854775808", "\n", "aé😀日", "NaN", "@badbytes", "@selfarray", "@selfmap", "@outercycle", "j", "a=b", "", "a", "a b", "é😀", "-1", "0", "1", "2.5", "99999999999999999999", "@array", "@map", "@set", "@bytes", "@released", "-r", "a\nb", "--FLAG",
 ];
 /// every option flag a command of the library (outside the excluded ones) knows
 const FLAGS: [&str; 18] = ["--copy", "--prefix", "--collection", "--file", "--handle", "--type", "--style", "--color", "--recursive", "--path", "--include-hidden", "--content", "--append", "--algo", "--base", "--silent", "-s", "-c"];
@@ -51,6 +51,8 @@ struct Prepared {
     selfmap: String,
     /// an array holding a map that holds itself: a cycle that does not pass through the root
     outercycle: String,
+    /// bytes that are not UTF-8: a multi-byte character cut off at the end
+    badbytes: String,
 }
 
 fn prepare() -> Prepared {
@@ -62,8 +64,13 @@ fn prepare() -> Prepared {
     let array = get(s.call("array", &["x", "y"]));
     let map = get(s.call("map", &[]));
     s.call("map_put", &[&map, "k", "v"]);
+    // keys and values that are awkward as names elsewhere (environment variables, properties, paths)
+    s.call("map_put", &[&map, "a=b", "v=w"]);
+    s.call("map_put", &[&map, "", ""]);
+    s.call("map_put", &[&map, "k é\n", "é\n"]);
     let set = get(s.call("set_new", &["x"]));
     let bytes = get(s.call("string_to_bytes", &["xyz"]));
+    let badbytes = get(s.call("base64_decode", &["YWLigg=="]));
     let released = get(s.call("array", &["gone"]));
     s.call("release", &[&released]);
     let selfarray = get(s.call("array", &["first"]));
@@ -79,7 +86,7 @@ fn prepare() -> Prepared {
     // `j` names a decoded JSON array (the variable layout of json_decode) whose length is huge
     s.variables.insert("j.length".into(), "99999999999".into());
     s.variables.insert("j[0]".into(), "first".into());
-    Prepared { s, array, map, set, bytes, released, selfarray, selfmap, outercycle }
+    Prepared { s, array, map, set, bytes, released, selfarray, selfmap, outercycle, badbytes }
 }
 
 /// The working directory of every command case: emptied and given the same small tree {file `a`,
@@ -115,6 +122,7 @@ fn resolve(p: &Prepared, v: &str, flag: &str) -> String {
         "@selfarray" => p.selfarray.clone(),
         "@selfmap" => p.selfmap.clone(),
         "@outercycle" => p.outercycle.clone(),
+        "@badbytes" => p.badbytes.clone(),
         "--FLAG" => flag.to_string(),
         o => o.to_string(),
     }
@@ -397,6 +405,65 @@ pub fn worker(w: &mut Worker) {
         }
     }
 
+    // (f) a user function (and an alias of it) as the condition of if / elseif / while / not, for every
+    // way the function can end
+    for body in ["", "return", "return true", "return false", "x = set 1", "x = set 1\nreturn", "if true\nreturn true\nend"] {
+        for (ci, consumer) in ["if C\necho yes\nend", "if false\nelseif C\necho yes\nend", "n = set 0\nwhile C\nn = calc ${n} + 1\nif greater_than ${n} 2\ngoto :out\nend\nend\n:out", "r = not C", "r = C", "C"].iter().enumerate() {
+            for (ai, call) in ["f a", "al a", "al"].iter().enumerate() {
+                if !w.take() {
+                    continue;
+                }
+                let text = format!("alias al f\nfn f\n{}\nend\n{}\necho done", body, consumer.replace('C', call));
+                let cj = json!({"kind": "script", "script": text, "plain_commands": true});
+                w.begin(|| cj.clone());
+                // the plain library, without the command counter that halts runaway scripts: these scripts
+                // end by themselves, and a run that does not is cut by the watchdog and reported
+                let ctx = sdk_context();
+                let (env, _o, _e, _h) = quiet_env();
+                let r = guarded(|| runner::run_script(&text, ctx, Some(env)));
+                w.add_transitions(1);
+                match r {
+                    Err(p) => w.fail("panic:function-as-condition", &format!("script {:?}: panic {}", text, p), cj),
+                    Ok(res) => w.pass(true, hash64(&("function-as-condition", res.is_ok(), ci, ai))),
+                }
+            }
+        }
+    }
+
+    // (h) a function that calls itself without end from condition position; (g) aliases that stand for themselves, directly and through one another
+    for text in ["alias a a\na\necho done", "alias a a x\nr = a y\necho done", "alias a b\nalias b a\nr = a x\necho done", "alias a b\nalias b c\nalias c a\nif a x\nend\necho done", "alias a not a\nr = a\necho done"] {
+        if !w.take() {
+            continue;
+        }
+        let cj = json!({"kind": "script", "script": text, "plain_commands": true});
+        w.begin(|| cj.clone());
+        let (env, _o, _e, _h) = quiet_env();
+        let r = guarded(|| runner::run_script(text, sdk_context(), Some(env)));
+        w.add_transitions(1);
+        match r {
+            Err(p) => w.fail("panic:self-alias", &format!("script {:?}: panic {}", text, p), cj),
+            Ok(res) => w.pass(true, hash64(&("self-alias", res.is_ok()))),
+        }
+    }
+
+    // (h) a function that calls itself without end from condition position. Plain calls are jumps and such
+    // a script just never ends; a call in condition position is evaluated by a nested interpreter, so
+    // this one uses the native stack up (recorded as a known finding, see KNOWN_FINDINGS.txt)
+    for text in ["fn f\nif f\nend\nend\nf\necho done", "fn f\nr = not f\nend\nf\necho done"] {
+        if !w.take() {
+            continue;
+        }
+        let cj = json!({"kind": "self-recursion", "script": text, "plain_commands": true});
+        w.begin(|| cj.clone());
+        let (env, _o, _e, _h) = quiet_env();
+        let r = guarded(|| runner::run_script(text, sdk_context(), Some(env)));
+        w.add_transitions(1);
+        match r {
+            Err(p) => w.fail("panic:self-recursion", &format!("script {:?}: panic {}", text, p), cj),
+            Ok(res) => w.pass(true, hash64(&("self-recursion", res.is_ok()))),
+        }
+    }
+
     // (d) include cycles (a file that includes itself, and a cycle of two files)
     for variant in 0..2usize {
         if !w.take() {
@@ -480,11 +547,12 @@ pub fn crash_sig(case: &Value, kind: &str) -> String {
         }
         "include-cycle" => format!("{}:include-cycle", kind),
         "script" => format!("{}:script", kind),
+        "self-recursion" => format!("{}:self-recursive-function-in-condition-position", kind),
         _ => kind.to_string(),
     }
 }
 
-pub const RULE: &str = "(a) every registered command of the standard library (discovered at run time; excluded: read, sleep, exec, spawn, exit, watchdog, everything under std::net, test_directory/test_file, cd, temp_file/temp_dir) x every argument tuple up to the arity bound from a 27-value pool {empty, NaN, a lone line break, multi-byte text at two byte alignments, a, 'a b', j (the name of a decoded JSON array variable set whose length entry is 99999999999), multi-byte, -1, 0, 1, 2.5, 20-digit number, i64::MAX, i64::MIN, live array/map/set/byte-array handle, an array containing its own handle, a map whose child array points back to it, an array holding a map that holds itself (a cycle not through the root), released handle, -r, text with a line break, a flag (each of the 18 option flags the library's commands know)}, each on a freshly prepared context in a scratch working directory that is reset before every case to the tree {file a, file 0, directory 1 with a file} (the quick tier adds every 'flag operand operand' triple); (b) 15 two-step histories (use after release, push/pop --copy of undefined and repeated names, removed or shadowed commands used by library scripts); (c) every script of up to n lines over 24 awkward lines (unmatched end/else/elseif/return, fn without name or end, for without array, goto to a missing label, goto loops, calls of undefined functions, ...) run with every command counted and the halt flag raised after 400 command entries; (d) a file that includes itself and a two-file include cycle; (e) for-in loops whose body clears, pops, removes from, releases, grows, replaces or unsets the array being iterated (sizes 0..3, three body shapes). Oracle: control returns with Ok or Err; a panic is caught and reported; an abort (stack overflow) or a hang (more than 4 s of CPU time, or 40 s of wall time, without returning) kills the worker process, is pinned to the case in flight by the supervisor and reported";
+pub const RULE: &str = "(a) every registered command of the standard library (discovered at run time; excluded: read, sleep, exec, spawn, exit, watchdog, everything under std::net, test_directory/test_file, cd, temp_file/temp_dir) x every argument tuple up to the arity bound from a 28-value pool {empty, NaN, a byte array that is not UTF-8 (a character cut off at its end), a map whose keys include 'a=b', the empty key and a key with a line break, a lone line break, multi-byte text at two byte alignments, a, 'a b', j (the name of a decoded JSON array variable set whose length entry is 99999999999), multi-byte, -1, 0, 1, 2.5, 20-digit number, i64::MAX, i64::MIN, live array/map/set/byte-array handle, an array containing its own handle, a map whose child array points back to it, an array holding a map that holds itself (a cycle not through the root), released handle, -r, text with a line break, a flag (each of the 18 option flags the library's commands know)}, each on a freshly prepared context in a scratch working directory that is reset before every case to the tree {file a, file 0, directory 1 with a file} (the quick tier adds every 'flag operand operand' triple); (b) 15 two-step histories (use after release, push/pop --copy of undefined and repeated names, removed or shadowed commands used by library scripts); (c) every script of up to n lines over 24 awkward lines (unmatched end/else/elseif/return, fn without name or end, for without array, goto to a missing label, goto loops, calls of undefined functions, ...) run with every command counted and the halt flag raised after 400 command entries; (f) a user function and an alias of it as the condition of if / elseif / while / not (and called plainly) for seven ways the function can end; (g) aliases that stand for themselves directly and through one another; (d) a file that includes itself and a two-file include cycle; (e) for-in loops whose body clears, pops, removes from, releases, grows, replaces or unsets the array being iterated (sizes 0..3, three body shapes). Oracle: control returns with Ok or Err; a panic is caught and reported; an abort (stack overflow) or a hang (more than 4 s of CPU time, or 40 s of wall time, without returning) kills the worker process, is pinned to the case in flight by the supervisor and reported";
 pub const ASSUMPTIONS: &[&str] = &["values that would request huge allocations are not in the pool (allocation failure aborts by design of Rust)", "loop constructs are allowed to loop: they are ended through the halt flag, which is the embedder's documented way"];
 pub const EXHAUSTIVE: bool = true;
 pub const WALL_CAP_S: (u64, u64) = (58, 1700);
